@@ -1446,13 +1446,46 @@ class Engine:
         s2.decided = st.decided
         s2.trace = st.trace
         vals = []
+        guards = []
         for v in node.values:
-            t = self.truthy(self.ev(v, s2))
+            before = len(s2.pc)
+            if guards:
+                # an operand that Python may skip: its side effects on the environment (made by call models) apply only
+                # under the guards - evaluate on a copy and merge the changed entries conditionally
+                env0 = st.env
+                s2.env = dict(env0)
+                t = self.truthy(self.ev(v, s2))
+                g_all = z3.And(*guards)
+                for key, nv in s2.env.items():
+                    ov = env0.get(key)
+                    if nv is ov or _same_value(nv, ov):
+                        continue
+                    merged = None
+                    try:
+                        tn, to_ = type_of_value(nv), type_of_value(ov)
+                        if tn == to_ and tn in ('int', 'bool', 'real', 'U', 'bv64', 'str'):
+                            merged = from_z3(z3.If(g_all, to_z3(nv, tn), to_z3(ov, tn)), tn)
+                        elif {tn, to_} <= {'int', 'bool'}:
+                            merged = z3.If(g_all, to_z3(nv, 'int'), to_z3(ov, 'int'))
+                    except Undecided:
+                        merged = None
+                    if merged is None:
+                        raise Undecided('side effect on %r inside a short-circuit operand cannot be merged' % key)
+                    env0[key] = merged
+                s2.env = env0
+            else:
+                t = self.truthy(self.ev(v, s2))
+            # facts assumed by call models while evaluating this operand (e.g. a clock reading) hold whenever the operand is
+            # evaluated at all, i.e. under the short-circuit guards: keep them in the caller's path condition
+            for fact in s2.pc[before:]:
+                st.assume(z3.Implies(z3.And(*guards), fact) if guards else fact)
             vals.append(t)
             ts = z3.simplify(t)
             if (isinstance(node.op, ast.And) and z3.is_false(ts)) or (isinstance(node.op, ast.Or) and z3.is_true(ts)):
                 break  # decided by a concrete operand: Python does not evaluate the rest
-            s2.pc.append(t if isinstance(node.op, ast.And) else z3.Not(t))
+            g = t if isinstance(node.op, ast.And) else z3.Not(t)
+            guards.append(g)
+            s2.pc.append(g)
         return z3.And(*vals) if isinstance(node.op, ast.And) else z3.Or(*vals)
 
     def ev_UnaryOp(self, node, st):
@@ -2315,6 +2348,10 @@ class Engine:
     def call_method(self, recv, meth, node, st):
         args = [self.ev(a, st) for a in node.args]
         target = node.func.value
+        if isinstance(recv, SMap) and meth in ('issubset', 'issuperset') and len(args) == 1 and isinstance(args[0], SMap):
+            a_, b_ = (recv, args[0]) if meth == 'issubset' else (args[0], recv)
+            q = z3.Const(fresh_name('sub_k'), sort_of(recv.kt))
+            return z3.ForAll([q], z3.Implies(z3.Select(a_.has, q), z3.Select(b_.has, q)))
         if isinstance(recv, SMap) and meth in ('values', 'keys') and not args:
             return ('map' + meth, recv)
         if isinstance(recv, SMap) and meth == 'get' and args:
